@@ -2,6 +2,7 @@ package engine
 
 import (
 	"go/types"
+	"govc/sym"
 	"sort"
 	"strings"
 
@@ -231,9 +232,12 @@ func (f *Frames) scan(fn *ssa.Function) {
 				}
 				switch {
 				case (iname == "KVStore" || iname == "BasicKVStore" || iname == "Store") && (m == "Set" || m == "Delete"):
-					d["store:"+mod] = true
+					d[storeEffect(mod, cc.Value, firstArg(cc.Args))] = true
 				case strings.Contains(iname, "BankKeeper") && bankWriters[m]:
 					d["bank"] = true
+					if m == "MintCoins" || m == "BurnCoins" {
+						d["bank:supply"] = true
+					}
 				case strings.Contains(iname, "BankKeeper"):
 					// reads
 				case iname == "Logger" || iname == "GasMeter" || iname == "EventManagerI" || iname == "Iterator" || iname == "KVStoreService" ||
@@ -262,7 +266,11 @@ func (f *Frames) scan(fn *ssa.Function) {
 				name := callee.String()
 				switch {
 				case strings.HasSuffix(name, "cosmossdk.io/store/prefix.Store).Set"), strings.HasSuffix(name, "cosmossdk.io/store/prefix.Store).Delete"):
-					d["store:"+mod] = true
+					if len(cc.Args) >= 2 {
+						d[storeEffect(mod, cc.Args[0], cc.Args[1])] = true
+					} else {
+						d["store:"+mod] = true
+					}
 				default:
 					addEdge(callee)
 					// external function receiving a context and not known to be effect-free
@@ -331,4 +339,148 @@ func (f *Frames) MayWriteIface(itype types.Type, method string) ([]string, int) 
 	}
 	sort.Strings(out)
 	return out, len(impls)
+}
+
+// Why returns one call chain from fn to a function that has the effect directly.
+func (f *Frames) Why(fn *ssa.Function, effect string) []string {
+	prev := map[*ssa.Function]*ssa.Function{fn: nil}
+	queue := []*ssa.Function{fn}
+	for len(queue) > 0 {
+		x := queue[0]
+		queue = queue[1:]
+		if f.direct[x][effect] {
+			var out []string
+			for y := x; y != nil; y = prev[y] {
+				out = append([]string{y.String()}, out...)
+			}
+			return out
+		}
+		for _, c := range f.edges[x] {
+			if _, ok := prev[c]; !ok {
+				prev[c] = x
+				queue = append(queue, c)
+			}
+		}
+	}
+	return nil
+}
+
+func firstArg(a []ssa.Value) ssa.Value {
+	if len(a) == 0 {
+		return nil
+	}
+	return a[0]
+}
+
+// storeEffect names the table a KV write addresses when the store and the key are built, in
+// the writing function itself, from the same ingredients the symbolic executor names tables
+// by (prefix stores over key-builder calls and key-prefix globals): "table:<module>:<tags>".
+// Anything it cannot resolve is the whole module: "store:<module>".
+func storeEffect(mod string, store, key ssa.Value) string {
+	whole := "store:" + mod
+	if store == nil || key == nil {
+		return whole
+	}
+	ptags, transient, ok := storeTags(store, 0)
+	if !ok {
+		return whole
+	}
+	ktags, ok := keyTags(key, 0)
+	if !ok {
+		return whole
+	}
+	tags := append(ptags, ktags...)
+	kind := ""
+	if transient {
+		kind = "~"
+	}
+	return "table:" + mod + kind + ":" + strings.Join(tags, "/")
+}
+
+func calleeName(v ssa.Value) (string, *ssa.Call) {
+	c, ok := v.(*ssa.Call)
+	if !ok {
+		return "", nil
+	}
+	if c.Call.IsInvoke() {
+		return c.Call.Method.Name(), c
+	}
+	if f, ok := c.Call.Value.(*ssa.Function); ok {
+		return f.String(), c
+	}
+	return "", c
+}
+
+func storeTags(v ssa.Value, depth int) (tags []string, transient bool, ok bool) {
+	if depth > 6 {
+		return nil, false, false
+	}
+	switch x := v.(type) {
+	case *ssa.MakeInterface:
+		return storeTags(x.X, depth+1)
+	case *ssa.ChangeInterface:
+		return storeTags(x.X, depth+1)
+	case *ssa.Call:
+		name, c := calleeName(x)
+		switch {
+		case strings.HasSuffix(name, "cosmossdk.io/store/prefix.NewStore") && len(c.Call.Args) == 2:
+			pt, tr, ok := storeTags(c.Call.Args[0], depth+1)
+			if !ok {
+				return nil, false, false
+			}
+			kt, ok := keyTags(c.Call.Args[1], depth+1)
+			if !ok {
+				return nil, false, false
+			}
+			return append(pt, kt...), tr, true
+		case strings.HasSuffix(name, "runtime.KVStoreAdapter") && len(c.Call.Args) == 1:
+			return storeTags(c.Call.Args[0], depth+1)
+		case name == "OpenKVStore":
+			return nil, false, true
+		case strings.HasSuffix(name, "cosmos-sdk/types.Context).KVStore") && len(c.Call.Args) == 2:
+			return nil, sym.IsTransientKeyExpr(c.Call.Args[1]), true
+		case strings.HasSuffix(name, "cosmos-sdk/types.Context).TransientStore"):
+			return nil, true, true
+		case name == "OpenTransientStore":
+			return nil, true, true
+		}
+	}
+	return nil, false, false
+}
+
+// keyTags mirrors the executor's naming of key bytes: an elys function returning []byte is
+// the tag pkg.Func, a package-level []byte variable the tag pkg.Var.
+func keyTags(v ssa.Value, depth int) ([]string, bool) {
+	if depth > 6 {
+		return nil, false
+	}
+	switch x := v.(type) {
+	case *ssa.Call:
+		if f, ok := x.Call.Value.(*ssa.Function); ok && f.Pkg != nil && strings.HasPrefix(f.Pkg.Pkg.Path(), ElysMod) && len(f.Blocks) > 0 {
+			rs := f.Signature.Results()
+			if rs.Len() == 1 && rs.At(0).Type().String() == "[]byte" {
+				return []string{f.Pkg.Pkg.Name() + "." + f.Name()}, true
+			}
+		}
+	case *ssa.UnOp:
+		if g, ok := x.X.(*ssa.Global); ok && g.Pkg != nil && strings.HasPrefix(g.Pkg.Pkg.Path(), ElysMod) {
+			return []string{g.Pkg.Pkg.Name() + "." + g.Name()}, true
+		}
+	case *ssa.Convert:
+		// []byte(someString): the executor's tag for converted strings
+		if b, ok := x.X.Type().Underlying().(*types.Basic); ok && b.Info()&types.IsString != 0 {
+			return []string{"str"}, true
+		}
+	}
+	return nil, false
+}
+
+// WritesModule: some effect of the set is a write to the module's store.
+func WritesModule(set map[string]bool, module string) bool {
+	for k := range set {
+		if k == "store:"+module || strings.HasPrefix(k, "table:"+module+":") || strings.HasPrefix(k, "table:"+module+"~:") {
+			return true
+		}
+	}
+	return false
 }
